@@ -3,6 +3,7 @@ package main
 import (
 	"bytes"
 	"fmt"
+	gofs "io/fs"
 	"sort"
 	"strings"
 	"sync"
@@ -136,8 +137,8 @@ func (w *mountWorld) partsDiff(cands []string) string {
 			if !ok {
 				return fmt.Sprintf("constituent %d (%s) holds %q which does not belong there", i, w.partName(i), g.Path)
 			}
-			gd, gp := kindPerm(g.Mode)
-			xd, xp := kindPerm(x.Mode)
+			gd, gp := kindPermSpecial(g.Mode)
+			xd, xp := kindPermSpecial(x.Mode)
 			if gd != xd {
 				return fmt.Sprintf("constituent %d (%s): %q has the wrong kind", i, w.partName(i), g.Path)
 			}
@@ -166,6 +167,8 @@ func (w *mountWorld) partName(i int) string {
 
 func runC06(r *Rng, n int, replay string) {
 	defer runC06Faults(100000)
+	defer runC06XFault(200000)
+	defer runC06Modes(300000)
 	cands := candidatePaths(nsNames, 4)
 	for id := 0; id < n; id++ {
 		w := buildMountWorld(r)
@@ -442,6 +445,127 @@ func runC06Faults(idBase int) {
 				}
 			}
 			emit(c)
+		}
+	}
+}
+
+// runC06XFault: the scenario of Properties/C06.v's refutation theorems, run against the code: mounts a and b over
+// key-value file systems on plain stores, a/x = [1 2 3], b/old = [9 9]; the k-th next call of ONE constituent's store
+// fails during Rename(a/x, b/new | b/old).  Result, source bytes and destination bytes are compared with the model
+// (C06_xfault_check); the non-atomic outcomes are the known findings, identified by the oracle stream above.
+func runC06XFault(idBase int) {
+	id := idBase
+	for _, old := range []bool{false, true} {
+		for part := 1; part <= 2; part++ {
+			for k := 0; k < 12; k++ {
+				root, _ := newKVPlain()
+				a, psa := newKVPlain()
+				b, psb := newKVPlain()
+				m, _ := mount.NewFS(root)
+				for i, pt := range []string{"a", "b"} {
+					if err := hackpadfs.MkdirAll(m, pt, 0o755); err != nil {
+						panic(err)
+					}
+					if err := m.AddMount(pt, []hackpadfs.FS{a, b}[i]); err != nil {
+						panic(err)
+					}
+				}
+				if err := hackpadfs.WriteFullFile(m, "a/x", []byte{1, 2, 3}, 0o644); err != nil {
+					panic(err)
+				}
+				if err := hackpadfs.WriteFullFile(m, "b/old", []byte{9, 9}, 0o600); err != nil {
+					panic(err)
+				}
+				ps := []*plainStore{psa, psb}[part-1]
+				ps.failAt = ps.calls + k
+				dname := map[bool]string{false: "new", true: "old"}[old]
+				var err error
+				panicked := ""
+				func() {
+					defer func() {
+						if e := recover(); e != nil {
+							panicked = fmt.Sprint(e)
+						}
+					}()
+					err = m.Rename("a/x", "b/"+dname)
+				}()
+				psa.failAt, psb.failAt = -1, -1
+				get := func(fs hackpadfs.FS, p string) (string, string) {
+					d, e := hackpadfs.ReadFile(fs, p)
+					if e != nil {
+						return "None", "absent"
+					}
+					return "(Some " + cBytes(d) + ")", fmt.Sprint(d)
+				}
+				sc, st := get(a, "x")
+				dc, dt := get(b, dname)
+				c := &Case{ID: id, Kind: "xfault", Trivial: false}
+				id++
+				c.Cells = []string{fmt.Sprintf("xfault/old=%v/part=%d", old, part)}
+				c.Text = []string{fmt.Sprintf("mounts a, b over key-value FSs; a/x=[1 2 3], b/old=[9 9]; store call +%d of mount %q fails during Rename(a/x, b/%s) -> %v; afterwards a/x=%s b/%s=%s",
+					k, []string{"a", "b"}[part-1], dname, err, st, dname, dt)}
+				if panicked != "" {
+					c.fail(c.Text[0]+": panicked: "+panicked, "xfault:panic")
+				}
+				c.Coq = fmt.Sprintf("(%s, %s, %s, (%s, %s, %s))", cBool(old), cNat(part), cNat(k), cBool(err == nil), sc, dc)
+				c.CType = "C06_xfault_case"
+				c.Check = "C06_xfault_check"
+				emit(c)
+			}
+		}
+	}
+}
+
+// runC06Modes: a file renamed across two mounts arrives with the source's whole mode -- permission bits and
+// setuid/setgid/sticky -- onto a new name and onto an existing file, between mounts and between root and a mount.
+func runC06Modes(idBase int) {
+	id := idBase
+	modes := []gofs.FileMode{0o644 | gofs.ModeSetuid, 0o600 | gofs.ModeSetgid, 0o755 | gofs.ModeSticky, 0o4 | gofs.ModeSetuid | gofs.ModeSticky, 0}
+	routes := [][2]string{{"a/x", "b/y"}, {"a/x", "r"}, {"r0", "b/y"}}
+	for _, mode := range modes {
+		for _, rt := range routes {
+			for _, existing := range []bool{false, true} {
+				root, a, b := newMem(), newMem(), newMem()
+				m, _ := mount.NewFS(root)
+				for i, pt := range []string{"a", "b"} {
+					_ = hackpadfs.Mkdir(m, pt, 0o755)
+					if err := m.AddMount(pt, []hackpadfs.FS{a, b}[i]); err != nil {
+						panic(err)
+					}
+				}
+				_ = hackpadfs.WriteFullFile(m, rt[0], []byte{1, 2, 3}, 0o666)
+				_ = hackpadfs.Chmod(m, rt[0], mode)
+				if existing {
+					_ = hackpadfs.WriteFullFile(m, rt[1], []byte{9}, 0o640)
+				}
+				srcInfo, serr := hackpadfs.Stat(m, rt[0])
+				c := &Case{ID: id, Kind: "xmode", Trivial: true}
+				id++
+				c.Cells = []string{fmt.Sprintf("xmode/existing=%v", existing)}
+				if serr != nil {
+					panic(serr)
+				}
+				err := m.Rename(rt[0], rt[1])
+				c.Text = []string{fmt.Sprintf("mounts a, b; %s has mode %v; Rename(%s, %s) (destination exists: %v) -> %v", rt[0], srcInfo.Mode(), rt[0], rt[1], existing, err)}
+				if err != nil {
+					c.fail(c.Text[0]+": failed", "xmode:failed")
+				} else {
+					dst, derr := hackpadfs.Stat(m, rt[1])
+					_, goneErr := hackpadfs.Stat(m, rt[0])
+					data, _ := hackpadfs.ReadFile(m, rt[1])
+					switch {
+					case derr != nil:
+						c.fail(c.Text[0]+": the destination does not exist afterwards", "xmode:missing")
+					case dst.Mode() != srcInfo.Mode():
+						c.fail(fmt.Sprintf("%s: the destination's mode is %v, the source's was %v", c.Text[0], dst.Mode(), srcInfo.Mode()), "xmode:mode")
+					case !bytes.Equal(data, []byte{1, 2, 3}):
+						c.fail(fmt.Sprintf("%s: the destination holds %v", c.Text[0], data), "xmode:bytes")
+					case goneErr == nil:
+						c.fail(c.Text[0]+": the source still exists", "xmode:source-left")
+					}
+				}
+				emit(c)
+			}
 		}
 	}
 }
